@@ -69,6 +69,11 @@ type Operation struct {
 	// operation was submitted. Only applicable to linearizable read-only operations.
 	quorumVerified bool
 
+	// The first round of heartbeats that may verify leadership for this operation. A round that
+	// was started before the operation was submitted says nothing about leadership at the time
+	// of submission. Only applicable to linearizable read-only operations.
+	verifyRound uint64
+
 	// The commit index at the time the operation was submitted. Only applicable to
 	// linearizable and lease-based read-only operations.
 	readIndex uint64
@@ -100,6 +105,17 @@ func newOperationManager(leaseDuration time.Duration) *operationManager {
 func (r *operationManager) markAsVerified() {
 	for operation := range r.pendingReadOnly {
 		operation.quorumVerified = true
+	}
+	r.shouldVerifyQuorum = true
+}
+
+// markAsVerifiedByRound marks the operations whose leadership check may be satisfied by the
+// provided round of heartbeats as verified.
+func (r *operationManager) markAsVerifiedByRound(round uint64) {
+	for operation := range r.pendingReadOnly {
+		if operation.verifyRound <= round {
+			operation.quorumVerified = true
+		}
 	}
 	r.shouldVerifyQuorum = true
 }
